@@ -86,11 +86,18 @@ class C17(Pipeline):
                 n_fail = sum(1 for e in events if e["act"] == a and e["args"]["via"] == via and e.get("res") == "fail")
                 if n_ok == 0 or n_fail == 0:
                     raise vk.Broken("vacuous drive: %s via %s succeeded %d times, failed %d times" % (a, via, n_ok, n_fail))
+        okx = [e for e in events if e["act"] == "Execute" and e.get("res") == "ok"]
+        if {e["args"]["who"] for e in okx} != {1, 2, 3} or {e["args"]["pg"] for e in okx} != {0, 1}:
+            raise vk.Broken("successful executions do not cover all callers / payload modes: %s %s" % ({e["args"]["who"] for e in okx}, {e["args"]["pg"] for e in okx}))
+
+    def output_coverage(self, events):
+        """Coverage conditions on what the code produced; only enforced on a trace without monitor failures."""
         calls = [m for e in events for m in e["obs"]["added"] if m["type"] == "slc"]
         if not calls or not any(m["type"] == "valset" for e in events for m in e["obs"]["added"]):
-            raise vk.Broken("no logic call / no just-in-time valset update observed in any turnstone queue")
+            return "no logic call / no just-in-time valset update observed in any turnstone queue"
         if not {m["sfx"] for m in calls} >= {1, 2, 3} or not {m["body"] for m in calls} >= {0, 1, 2}:
-            raise vk.Broken("observed calls do not cover all callers / payloads: %s %s" % ({m["sfx"] for m in calls}, {m["body"] for m in calls}))
+            return "observed calls do not cover all callers / payloads: %s %s" % ({m["sfx"] for m in calls}, {m["body"] for m in calls})
+        return None
 
     def extra_coverage(self, tier):
         ev = getattr(self, "_events", [])
@@ -142,6 +149,8 @@ class C17(Pipeline):
     def validate(self, events):
         t0 = time.time()
         v = self._validate_all(events)
+        if not hasattr(self, "_main"):
+            self._main = v          # the first validation is the one of the driven trace
         if len(events) > 1000:
             vk.log("validate: %d events, %.1fs" % (len(events), time.time() - t0))
         if v.accepted and any(n == "Init" for n, _, _ in v.conffail):
@@ -163,54 +172,89 @@ class C17(Pipeline):
         def slc(e):
             return [m for m in e["obs"]["added"] if m["type"] == "slc"]
 
+        dirty = bool(getattr(self, "_main", None) and self._main.monfail)
+        skipped = []
+        if not dirty:
+            why = self.output_coverage(events)
+            if why:
+                return {"ok": False, "why": why}
+
+        def missing(why):
+            if dirty:
+                skipped.append(why)
+                return None
+            return {"ok": False, "why": why}
+
         jobs = {}
         # 1. the recorded suffix of a call names the job's owner instead of the requester -> CallerAppended
         h, k = find(lambda e, pre: e["act"] == "Execute" and e["res"] == "ok" and e["args"]["via"] == "tx" and slc(e)
                     and any(j["id"] == e["args"]["id"] and j["owner"] != e["args"]["who"] for j in e["obs"]["jobs"]))
         if h is None:
-            return {"ok": False, "why": "no successful execution by a non-owner recorded"}
-        evs = copy.deepcopy(byh[h])
-        own = [j["owner"] for j in evs[k]["obs"]["jobs"] if j["id"] == evs[k]["args"]["id"]][0]
-        for m in slc(evs[k]):
-            m["sfx"] = own
-        jobs["owner_suffix_rejected"] = (evs, lambda v: any(n == "C17.CallerAppended" for n, _, _ in v.monfail))
+            r = missing("no successful execution by a non-owner recorded")
+            if r:
+                return r
+        else:
+            evs = copy.deepcopy(byh[h])
+            own = [j["owner"] for j in evs[k]["obs"]["jobs"] if j["id"] == evs[k]["args"]["id"]][0]
+            for m in slc(evs[k]):
+                m["sfx"] = own
+            jobs["owner_suffix_rejected"] = (evs, lambda v: any(n == "C17.CallerAppended" for n, _, _ in v.monfail))
         # 2. a stored job's payload changes in a later observation -> JobsImmutable
         h2, k2 = find(lambda e, pre: e["act"] == "Execute" and len(e["obs"]["jobs"]) >= 1)
-        evs = copy.deepcopy(byh[h2])
-        j = evs[k2]["obs"]["jobs"][0]
-        j["payload"] = 2 if j["payload"] == 1 else 1
-        jobs["mutated_job_rejected"] = (evs, lambda v: any(n == "C17.JobsImmutable" for n, _, _ in v.monfail))
-        # 3. a fixed job's call recorded with the caller's payload -> CallIsStoredCall
-        h3, k3 = find(lambda e, pre: e["act"] == "Execute" and e["res"] == "ok" and e["args"]["pg"] == 0 and slc(e))
-        evs = copy.deepcopy(byh[h3])
-        for m in slc(evs[k3]):
-            m["body"] = 0
-        jobs["foreign_payload_rejected"] = (evs, lambda v: any(n == "C17.CallIsStoredCall" for n, _, _ in v.monfail))
+        if h2 is None:
+            r = missing("no execution request with a stored job recorded")
+            if r:
+                return r
+        else:
+            evs = copy.deepcopy(byh[h2])
+            j = evs[k2]["obs"]["jobs"][0]
+            j["payload"] = 2 if j["payload"] == 1 else 1
+            jobs["mutated_job_rejected"] = (evs, lambda v: any(n == "C17.JobsImmutable" for n, _, _ in v.monfail))
+        # 3. a fixed job's call recorded with the caller's payload -> CallIsStoredCall; 5. the call doubled -> ExactlyOneCall
+        h3, k3 = find(lambda e, pre: e["act"] == "Execute" and e["res"] == "ok" and e["args"]["pg"] == 0 and len(slc(e)) == 1)
+        if h3 is None:
+            r = missing("no successful execution without caller payload recorded")
+            if r:
+                return r
+        else:
+            evs = copy.deepcopy(byh[h3])
+            for m in slc(evs[k3]):
+                m["body"] = 0
+            jobs["foreign_payload_rejected"] = (evs, lambda v: any(n == "C17.CallIsStoredCall" for n, _, _ in v.monfail))
+            evs = copy.deepcopy(byh[h3])
+            evs[k3]["obs"]["added"] = evs[k3]["obs"]["added"] + slc(evs[k3])
+            jobs["double_call_rejected"] = (evs, lambda v: any(n == "C17.ExactlyOneCall" for n, _, _ in v.monfail))
         # 4. a failed request recorded with a queued call -> FailureEnqueuesNothing
         h4, k4 = find(lambda e, pre: e["act"] == "Execute" and e["res"] == "fail" and any(x["act"] == "Execute" and slc(x) for x in pre))
         if h4 is None:
-            return {"ok": False, "why": "no failed execution after a successful one recorded"}
-        evs = copy.deepcopy(byh[h4])
-        donor = [m for x in evs[:k4] for m in slc(x)][0]
-        evs[k4]["obs"]["added"] = [copy.deepcopy(donor)]
-        jobs["call_after_failure_rejected"] = (evs, lambda v: any(n == "C17.FailureEnqueuesNothing" for n, _, _ in v.monfail))
-        # 5. the call of a successful execution dropped / doubled -> ExactlyOneCall
-        evs = copy.deepcopy(byh[h3])
-        evs[k3]["obs"]["added"] = evs[k3]["obs"]["added"] + slc(evs[k3])
-        jobs["double_call_rejected"] = (evs, lambda v: any(n == "C17.ExactlyOneCall" for n, _, _ in v.monfail))
+            r = missing("no failed execution after a successful one recorded")
+            if r:
+                return r
+        else:
+            evs = copy.deepcopy(byh[h4])
+            donor = [m for x in evs[:k4] for m in slc(x)][0]
+            evs[k4]["obs"]["added"] = [copy.deepcopy(donor)]
+            jobs["call_after_failure_rejected"] = (evs, lambda v: any(n == "C17.FailureEnqueuesNothing" for n, _, _ in v.monfail))
         # 6. a successful duplicate creation that overwrote the owner -> IdUnique / JobsImmutable
         h6, k6 = find(lambda e, pre: e["act"] == "Create" and e["res"] == "fail" and e["cs"] == "scheduler" and e["code"] == 1200)
         if h6 is None:
-            return {"ok": False, "why": "no duplicate creation recorded"}
-        evs = copy.deepcopy(byh[h6])
-        evs[k6]["res"], evs[k6]["cs"], evs[k6]["code"] = "ok", "", 0
-        jobs["forged_duplicate_rejected"] = (evs, lambda v: any(n == "C17.IdUnique" for n, _, _ in v.monfail))
+            r = missing("no duplicate creation recorded")
+            if r:
+                return r
+        else:
+            evs = copy.deepcopy(byh[h6])
+            evs[k6]["res"], evs[k6]["cs"], evs[k6]["code"] = "ok", "", 0
+            jobs["forged_duplicate_rejected"] = (evs, lambda v: any(n == "C17.IdUnique" for n, _, _ in v.monfail))
+        if not jobs:
+            return {"ok": True, "skipped": skipped}
         t0 = time.time()
         with ThreadPoolExecutor(max_workers=len(jobs)) as ex:
             vs = dict(zip(jobs, ex.map(lambda j: self.validate(j[0]), jobs.values())))
         out = {name: bool(jobs[name][1](vs[name])) for name in jobs}
         vk.log("binding self-test: %.1fs" % (time.time() - t0))
-        out["ok"] = all(out.values())
+        out["ok"] = all(out.values()) or dirty     # on a trace with monitor failures the verdict must come out
+        if skipped:
+            out["skipped"] = skipped
         return out
 
 
